@@ -128,6 +128,14 @@ def determineResultType (interp : Except TransactionExecutionError Unit)
         if fullyRepaid then .commitFailure e
         else .reject (.errorBeforeLoanAndDeferredCostsRepaid e)
 
+/-- the end of `SystemLoanFeeReserve::repay_all` when no deferred cost fails: the loan is repaid from
+the locked balance; an outstanding loan is `LoanRepaymentFailed`; otherwise a configured abort fires.
+`covered` = the locked balance covers what is owed. Returns the result and `fully_repaid()` afterwards. -/
+def repayAllTail (covered : Bool) (abortWhenLoanRepaid : Bool) : Except FeeReserveError Unit × Bool :=
+  if !covered then (.error .loanRepaymentFailed, false)
+  else if abortWhenLoanRepaid then (.error .abort, true)
+  else (.ok (), true)
+
 inductive ReceiptOutcome where
   /-- `panic!("An error has occurred in the system layer or below …")` -/
   | hostPanic
@@ -191,6 +199,13 @@ def lookupN {V : Type} : List (Nat × V) → Nat → Option V
   | [], _ => none
   | (k, v) :: t, x => if x = k then some v else lookupN t x
 
+/-- "Validate receiver type" of `invoke_upstream` -/
+def receiverOk (fs : FunctionSchema) (hasNode directAccess : Bool) : Bool :=
+  match fs.receiver, hasNode with
+  | some refDirect, true => directAccess == refDirect
+  | none, false => true
+  | _, _ => false
+
 /-- method / function branch of `invoke_upstream` -/
 def invokeFn (validIn : String → Nat → Bool) (validOut : String → Nat → Bool)
     (vm : String → Nat → Except Nat Nat) (defn : BlueprintDefinition)
@@ -205,12 +220,7 @@ def invokeFn (validIn : String → Nat → Bool) (validOut : String → Nat → 
       match lookupS defn.functions ident with
       | none => (.panic "Should exist due to schema check", none)
       | some fs =>
-        let receiverOk : Bool :=
-          match fs.receiver, hasNode with
-          | some refDirect, true => directAccess == refDirect
-          | none, false => true
-          | _, _ => false
-        if !receiverOk then (.err .receiverNotMatch, none)
+        if !(receiverOk fs hasNode directAccess) then (.err .receiverNotMatch, none)
         else
           -- definition.function_exports.get(ident).expect("Schema should have validated this exists")
           match lookupS defn.functionExports ident with
